@@ -27,12 +27,17 @@ def call_atom(ex, state, f, args, kwargs, node=None):
             return unknown_call(ex, state, name, args, kwargs, sv)
         if f.fkind == "native":
             sym, _ = ex.reg.native_specs[f.name]
-            return sym(ex, state, *args, **kwargs)
+            if any(isinstance(a, VUnion) for a in args):
+                return ex.dist(state, list(args), lambda *atoms: _native(ex, state, sym, atoms, kwargs))
+            return _native(ex, state, sym, args, kwargs)
         if f.fkind == "virtual":
             name = f.spec
             if isinstance(name, str) and name.startswith("repo:"):
                 fi = loader.get_function(name[5:])
-                return call_repo(ex, state, VFunc("repo", fi.node.name, finfo=fi), args, kwargs)
+                fv = VFunc("repo", fi.node.name, finfo=fi)
+                if fi.cls is not None:
+                    fv.self_val = f.self_val        # a method of the declared implementation class
+                return call_repo(ex, state, fv, args, kwargs)
             if name in ex.reg.externals:
                 ex.notes["externals"].add(name)
                 return ex.reg.externals[name](ex, state, args, kwargs, f.self_val)
@@ -61,6 +66,14 @@ def call_atom(ex, state, f, args, kwargs, node=None):
                 fv = VFunc("repo", "__call__", finfo=loader.FuncInfo(c.module, c.name + ".__call__", m, c), self_val=f)
                 return call_repo(ex, state, fv, args, kwargs)
     raise Unsupported("call of %r" % (f,))
+
+
+def _native(ex, state, sym, args, kwargs):
+    try:
+        return sym(ex, state, *args, **kwargs)
+    except AttributeError:
+        # a spec function applied to an alternative of the wrong kind (e.g. None under an `is not None` guard)
+        raise _Abort()
 
 
 def unknown_call(ex, state, name, args, kwargs, self_val):
@@ -168,9 +181,17 @@ def resolve_dynamic(f):
     return f.finfo
 
 
+PURE_TEXT_FUNCS = {"autobahn.util:hltype", "autobahn.util:hlval", "autobahn.util:hlid", "autobahn.util:hl",
+                   "autobahn.util:hluserid", "autobahn.util:_maybe_tls_reason", "autobahn.util:hlflag",
+                   "autobahn.util:hlfixme", "autobahn.util:hlcontract", "autobahn.util:public"}
+
+
 def call_repo(ex, state, f, args, kwargs):
     fi = f.finfo
     addr = fi.addr
+    if addr in PURE_TEXT_FUNCS:
+        ex.notes["dropped"].add("log-formatting helper %s (opaque str)" % addr)
+        return VStr(z3.String(fresh_name("txt")))
     self_val = getattr(f, "self_val", None)
     if isinstance(fi.node, ast.AsyncFunctionDef):
         raise Unsupported("call of async function " + addr)
@@ -289,6 +310,7 @@ def eval_clause(ex, state, contract, clause, env, old_state=None, as_value=False
     saved_old = ex.old_state
     ex.old_state = old_state
     ex.spec_mode += 1
+    saved_clause, ex.cur_clause = getattr(ex, "cur_clause", None), clause
     n = len(state.pc)
     try:
         v = ex.ev(state, tree)
@@ -298,12 +320,16 @@ def eval_clause(ex, state, contract, clause, env, old_state=None, as_value=False
         side = state.pc[n:]
         return simp(t), side
     except _Abort:
-        # the clause was evaluated in an infeasible state (every alternative definitely fails): vacuously true there
+        # every alternative definitely fails: the clause is only well-defined if this state is infeasible
         if as_value:
             raise
+        sm, ex.spec_mode = ex.spec_mode, 0
+        ex.oblige("spec-defined", state, z3.BoolVal(False), info={"clause": clause})
+        ex.spec_mode = sm
         return z3.BoolVal(True), []
     finally:
         ex.spec_mode -= 1
+        ex.cur_clause = saved_clause
         ex.old_state = saved_old
         state.frames.pop()
         if not as_value:
